@@ -323,6 +323,136 @@ def check_unclosed_quotes(body):
                            "(Model/C12Windows.unclosed_quotes): %s" % got)
 
 
+# ---------------------------------------------------------------------------------------------------------------
+# phase 6: the match arms of CommaFixes::lint as a table (Model/C12Comma.cf_arms decodes it)
+# ---------------------------------------------------------------------------------------------------------------
+COMMA_PRE = ("{ let mut lints = Vec::new(); let source = document.get_source(); for ci in document.iter_comma_indices() { "
+             "let mut toks = (None, None, document.get_token(ci).unwrap(), None, None); "
+             "toks.0 = (ci >= 2).then(|| document.get_token(ci - 2).unwrap()); "
+             "toks.1 = (ci >= 1).then(|| document.get_token(ci - 1).unwrap()); "
+             "toks.3 = document.get_token(ci + 1); toks.4 = document.get_token(ci + 2); "
+             "let kinds = ( toks.0.map(|t| &t.kind), toks.1.map(|t| &t.kind), "
+             "*toks.2.span.get_content(source).first().unwrap(), toks.3.map(|t| &t.kind), toks.4.map(|t| &t.kind), ); "
+             "let (span, suggestion, message) = match kinds ")
+COMMA_POST = ("; lints.push(Lint { span, lint_kind: LintKind::Punctuation, suggestions: vec![suggestion], "
+              "message: message.join(\" \"), priority: 32, }); } lints }")
+COMMA_NEIGH = {"_": 0, "Some(Word(_))": 1, "Some(Space(_))": 2, "Some(Unlintable)": 3}
+COMMA_CENTRE = {"','": 0, "'、' | '，'": 1}
+COMMA_SPAN = {"toks.2.span": 1, "toks.1.unwrap().span": 2, "Span::new(toks.1.unwrap().span.start, toks.2.span.end)": 3}
+COMMA_SUGG = {"Suggestion::Remove": 0, "Suggestion::ReplaceWith(vec![','])": 1,
+              "Suggestion::ReplaceWith(vec![',', ' '])": 2, "Suggestion::InsertAfter(vec![' '])": 3}
+COMMA_MSG = {"MSG_SPACE_BEFORE": 1, "MSG_AVOID_ASIAN": 2, "MSG_SPACE_AFTER": 4}
+COMMA_IMPORT = "TokenKind::{Space, Unlintable, Word}"
+
+
+def _match_close(code, i, op, cl):
+    depth = 0
+    j = i
+    while j < len(code):
+        ch = code[j]
+        if ch == "'":                       # a char literal: skip it whole ('(' never occurs, but ',' and ' ' do)
+            k = code.index("'", j + 1)
+            j = k + 1
+            continue
+        if ch == op:
+            depth += 1
+        elif ch == cl:
+            depth -= 1
+            if depth == 0:
+                return j
+        j += 1
+    raise RuntimeError("comma_fixes.rs: unbalanced %s%s" % (op, cl))
+
+
+def _split_top(s):
+    parts, depth, cur, j = [], 0, "", 0
+    while j < len(s):
+        ch = s[j]
+        if ch == "'":
+            k = s.index("'", j + 1)
+            cur += s[j:k + 1]
+            j = k + 1
+            continue
+        if ch in "([{":
+            depth += 1
+        elif ch in ")]}":
+            depth -= 1
+        if ch == "," and depth == 0:
+            parts.append(cur.strip())
+            cur = ""
+        else:
+            cur += ch
+        j += 1
+    if cur.strip():
+        parts.append(cur.strip())
+    return parts
+
+
+def comma_arms(doc, body, code):
+    """[(p0, p1, centre, p3, p4, (span code, id))] of `match kinds { .. }` in CommaFixes::lint, in source order; the
+    final `_ => continue` is implicit.  Raises when anything around or inside the match is not what C12Comma.v models."""
+    where = "comma_fixes.rs"
+    if doc != "document":
+        raise RuntimeError("%s: the Document parameter is called %s" % (where, doc))
+    if COMMA_IMPORT not in re.sub(r"\s+", " ", code):
+        raise RuntimeError("%s: Word / Space / Unlintable are not TokenKind's variants any more" % where)
+    flat = re.sub(r"\s+", " ", body).strip()
+    i = flat.find("match kinds {")
+    if i < 0 or flat[:i + len("match kinds ")] != COMMA_PRE:
+        raise RuntimeError("%s: the loop head of CommaFixes::lint is not the modelled one: %s" % (where, flat[:i]))
+    lb = i + len("match kinds ")
+    rb = _match_close(flat, lb, "{", "}")
+    if flat[rb + 1:] != COMMA_POST:
+        raise RuntimeError("%s: the loop tail of CommaFixes::lint is not the modelled one: %s" % (where, flat[rb + 1:]))
+    inner = flat[lb + 1:rb].strip()
+    arms, j = [], 0
+    while j < len(inner):
+        if inner[j] in " ,":
+            j += 1
+            continue
+        if inner[j] == "_":
+            if inner[j:].replace(" ", "") not in ("_=>continue,", "_=>continue"):
+                raise RuntimeError("%s: unknown catch-all arm: %s" % (where, inner[j:]))
+            break
+        if inner[j] != "(":
+            raise RuntimeError("%s: unknown arm at: %s" % (where, inner[j:j + 60]))
+        e = _match_close(inner, j, "(", ")")
+        pats = _split_top(inner[j + 1:e])
+        if len(pats) != 5:
+            raise RuntimeError("%s: an arm pattern with %d components" % (where, len(pats)))
+        try:
+            pp = (COMMA_NEIGH[pats[0]], COMMA_NEIGH[pats[1]], COMMA_CENTRE[pats[2]], COMMA_NEIGH[pats[3]], COMMA_NEIGH[pats[4]])
+        except KeyError as ex:
+            raise RuntimeError("%s: unknown arm pattern component %s" % (where, ex))
+        m = re.match(r"\s*=>\s*", inner[e + 1:])
+        if not m:
+            raise RuntimeError("%s: arm without =>" % where)
+        j = e + 1 + m.end()
+        if inner.startswith("continue", j):
+            arms.append(pp + ((0, 0),))
+            j += len("continue")
+            continue
+        if inner[j] != "(":
+            raise RuntimeError("%s: unknown arm result: %s" % (where, inner[j:j + 60]))
+        e = _match_close(inner, j, "(", ")")
+        res = _split_top(inner[j + 1:e])
+        if len(res) != 3 or res[0] not in COMMA_SPAN or res[1] not in COMMA_SUGG:
+            raise RuntimeError("%s: unknown arm result: %s" % (where, inner[j:e + 1]))
+        mm = re.fullmatch(r"vec!\[(.*)\]", res[2])
+        if not mm:
+            raise RuntimeError("%s: unknown message: %s" % (where, res[2]))
+        bits = 0
+        for x in _split_top(mm.group(1)):
+            if x not in COMMA_MSG:
+                raise RuntimeError("%s: unknown message constant %s" % (where, x))
+            bits += COMMA_MSG[x]
+        arms.append(pp + ((COMMA_SPAN[res[0]], bits + 8 * COMMA_SUGG[res[1]]),))
+        j = e + 1
+    if not arms:
+        raise RuntimeError("%s: no match arms found" % where)
+    return arms
+
+
 def generate(repo):
     files = rule_files(repo)
     check_merge_macro(files)
@@ -336,6 +466,7 @@ def generate(repo):
     d, b = lint_body(bl, "pattern_linter.rs blanket impl")
     blanket = classify(d, b, "pattern_linter.rs blanket impl")
     rows, seen, guards = [], {}, {}
+    c_arms = None
     for name, ty in structs:
         if ty not in seen:
             impl = find_impl(files, ty)
@@ -347,6 +478,8 @@ def generate(repo):
                 g = window_guard(d, b, shape, impl[1])
                 if g is not None:
                     guards[ty] = g
+                if ty == "CommaFixes":
+                    c_arms = comma_arms(d, b, files[impl[1]])
                 if ty == "UnclosedQuotes":
                     if shape != "TokenLoop":
                         raise RuntimeError("unclosed_quotes.rs: shape %s, the model is a token loop" % shape)
@@ -389,6 +522,16 @@ def generate(repo):
             "Definition window_guard_pats : list (list kpat) := [" +
             "; ".join("[%s]" % "; ".join(guards[t]) for n, t, _, _, _, _ in rows if t in guards) + "].",
             "Definition window_guards : list (string * list kpat) := combine window_guard_names window_guard_pats."]
+    if c_arms is None:
+        raise RuntimeError("CommaFixes is no longer a struct rule with its own Linter impl (Model/C12Comma.v models it)")
+    out += ["", "(* the arms of `match kinds { .. }` in CommaFixes::lint, in source order (the closing `_ => continue` left out):",
+            "   (toks.0, toks.1, centre, toks.3, toks.4, (result, id)); neighbour pattern 0 `_` 1 Some(Word(_)) 2 Some(Space(_))",
+            "   3 Some(Unlintable); centre 0 ',' 1 the two East Asian commas; result 0 continue, 1 the comma's span, 2 the span of toks.1,",
+            "   3 Span::new(toks.1.start, toks.2.end); id = 1 space-before + 2 Asian + 4 space-after + 8 * suggestion",
+            "   (0 Remove, 1 ReplaceWith [','], 2 ReplaceWith [',', ' '], 3 InsertAfter [' ']) *)",
+            "Definition comma_arms_raw : list (nat * nat * nat * nat * nat * (nat * nat)) := [",
+            ";\n".join("  (%d, %d, %d, %d, %d, (%d, %d))" % (a[0], a[1], a[2], a[3], a[4], a[5][0], a[5][1]) for a in c_arms),
+            "]."]
     out += ["", "(* pattern rules (add_pattern_linter): they run per chunk through the chunk cache *)",
             "Definition pattern_rule_count : nat := %d." % n_pat,
             "(* distinct rule names of the registry (LintGroup::iter_keys, duplicates removed) *)",
